@@ -52,6 +52,7 @@ EXPLANATION = ("Lean theorems about the cooling-loop fold of the 0D/1D models + 
                "against Snowing.run(); the property itself re-evaluated on the real recorded fields with an "
                "independent quadrature")
 PARALLEL = True
+LEVEL_TEXT = ("Lean 4 theorems about executable models of _run_0D and _run_1D (exact real arithmetic), tied to /repo on every run by a differential check (bit-for-bit agreement observed except np.mean). Proved in full for 0D and 1D: nucleation at the first step with F_nuc > F_rand and at no other (fold invariant of the cooling loop); E is the Riemann sum of K_v dt with K_v = J V (0D) / A simpson(J_z, z) (1D) over the supercooled mask; E is non-decreasing; the weights of scipy's simpson on a uniform grid are derived from its formula for both parities (odd: h/3[1,4,2,...,4,1]; even: last three 5h/4, h, 5h/12) and are non-negative; min <= mean <= max; min <= T_kin <= T_eq_l when K_v > 0 and T_kin = 273.15 K otherwise; the four numbers are those of the field of the break step. PARTIAL with respect to the property's quantifier: the 2D model (r-weighted double quadrature) has no theorem in this check; 2D is covered only by evaluating the clauses on real 2D runs (hazard integral re-computed from the recorded fields with closed-form weights).")
 
 TIE = 1e-9
 
